@@ -129,10 +129,13 @@ theorem call_data_covered (os : List Offer) : ∀ (s : St), Inv s → ∀ p t, O
   | nil => intro s _ p t hm; simp [call] at hm
   | cons o os ih =>
     intro s h p t hm
-    simp only [call, List.mem_cons] at hm
-    rcases hm with hm | hm
-    · exact step_data_covered s o h p t hm.symm
-    · exact ih _ (step_inv s o h) p t hm
+    simp only [call] at hm
+    split at hm
+    · exact ih s h p t hm
+    · simp only [List.mem_cons] at hm
+      rcases hm with hm | hm
+      · exact step_data_covered s o h p t hm.symm
+      · exact ih _ (step_inv s o h) p t hm
 
 theorem non_exempt_packet_below_window (cs : List (List Offer)) :
     ∀ (s : St) p t, Out.pkt 2 true p t ∈ (calls s cs).2 → p = true ∨ t = true := by
@@ -155,7 +158,7 @@ def witness : List (List Offer) :=
 
 theorem non_exempt_packet_below_window_counterexample : ¬ non_exempt_packet_below_window_statement := by
   intro h
-  have := h ⟨0, 0, 0, false, false, false, false, 0⟩ witness (.pkt 1 true false false) (by decide)
+  have := h ⟨0, 0, 0, false, false, false, false, 0, 0, 0, 0⟩ witness (.pkt 1 true false false) (by decide)
   simp [Covered] at this
 
 /-- credits outstanding plus probe datagrams already sent -/
@@ -191,7 +194,11 @@ theorem step_budget (s : St) (o : Offer) : budget (step s o).1 = budget s := by
 theorem call_budget (os : List Offer) : ∀ s, budget (call s os).1 = budget s := by
   induction os with
   | nil => intro s; rfl
-  | cons o os ih => intro s; simp only [call]; rw [ih, step_budget]
+  | cons o os ih =>
+    intro s; simp only [call]
+    split
+    · exact ih s
+    · rw [ih, step_budget]
 
 theorem calls_budget (cs : List (List Offer)) : ∀ s, budget (calls s cs).1 = budget s := by
   induction cs with
@@ -226,7 +233,7 @@ theorem probes_per_pto_le_two (s : St) (space : Nat) (n : Bool) (earlier : Optio
 /-- non-vacuity: a Data-space timeout with Handshake data pending sends exactly two probe datagrams
     (Handshake probe with the Data packet coalesced, then the Data probe) and then blocks -/
 example :
-    let s := onPto ⟨0, 0, 0, false, false, false, false, 0⟩ 2 false (some 1)
+    let s := onPto ⟨0, 0, 0, false, false, false, false, 0, 0, 0, 0⟩ 2 false (some 1)
     let r := calls s [[{ space := 1, ae := true, coalesce := false, inFlight := 12000, bytes := 1200, window := 12000 },
                        { space := 2, ae := true, coalesce := true, inFlight := 12000, bytes := 1200, window := 12000 },
                        { space := 2, ae := true, coalesce := false, inFlight := 13200, bytes := 1200, window := 12000 },
